@@ -410,7 +410,7 @@ def save_csv(
         return
     if not isinstance(rows, (list, tuple, types.GeneratorType)):
         raise TypeError(f"Expected rows as list or tuple or generator, but got ({type(rows)}) {rows}")
-    if isinstance(rows, (list, tuple)) \
+    if isinstance(rows, (list, tuple)) and rows \
     and not isinstance(rows[0], (list, tuple)) and type(rows[0]) is not {}.values().__class__:
         raise TypeError(f"Expected rows as list/tuples of lists/tuples, but got ({type(rows[0])}) {rows[0]}")
     if header \
